@@ -25,25 +25,29 @@ TIERS = {
     "quick": [dict(roots="all", K=1, KV=1, KU=2, shards=10),
               dict(roots="response", K=2, KV=0, KU=3, shards=8),
               dict(roots="unionholder", K=2, KV=0, KU=3, shards=10),
-              dict(roots="arrayunion", K=3, KV=0, KU=0, shards=6),
+              dict(roots="arrayunion", K=3, KV=0, KU=0, shards=6, KL=4),
               # every value within one change of the MAXIMAL instance (all properties set, budget 2)
-              dict(roots="all", K=1, KV=1, KU=1, shards=10, frommax=True),
+              dict(roots="all", K=1, KV=1, KU=1, shards=10, frommax=True, KL=1),
               dict(roots="alias", K=3, KV=0, KU=4, shards=2),
               # the union holders and all deviations once more in a process with another hash seed (set / dict iteration
               # orders differ) and under python -O (assert statements and __debug__ blocks removed)
               dict(roots="unionholder", K=1, KV=0, KU=0, shards=4, cfg="default@1@O"),
               dict(roots="structure", K=0, KV=1, KU=0, shards=4, cfg="default@2@O"),
+              # ... through a converter the application supplied (all cattrs defaults), with warnings turned into errors
+              dict(roots="all", K=0, KV=1, KU=0, shards=6, cfg="user@3@W"),
               # a pristine converter next to a converter the application made lenient, which sees every input first
               dict(roots="all", K=0, KV=1, KU=0, shards=6, cfg="after_lenient")],
     "thorough": [dict(roots="all", K=2, KV=2, KU=3, shards=32),
                  dict(roots="response", K=3, KV=0, KU=3, shards=24),
                  dict(roots="alias", K=4, KV=0, KU=4, shards=4),
                  dict(roots="unionholder", K=3, KV=0, KU=0, shards=16),
-                 dict(roots="all", K=2, KV=1, KU=2, shards=32, frommax=True),
+                 dict(roots="all", K=2, KV=1, KU=2, shards=32, frommax=True, KL=1),
+                 dict(roots="arrayunion", K=3, KV=0, KU=0, shards=8, KL=4),
                  # the same universe through differently configured converters (C19's configurations, judged clause by clause)
                  dict(roots="all", K=1, KV=1, KU=2, shards=16, cfg="nodetail"),
                  dict(roots="all", K=1, KV=1, KU=2, shards=16, cfg="second"),
                  dict(roots="all", K=1, KV=1, KU=2, shards=16, cfg="default@1@O"),
+                 dict(roots="all", K=1, KV=1, KU=2, shards=16, cfg="user@3@OW"),
                  dict(roots="all", K=1, KV=1, KU=2, shards=16, cfg="after_lenient"),
                  dict(roots="unionholder", K=2, KV=0, KU=0, shards=16, cfg="default@2"),
                  dict(roots="unionholder", K=2, KV=0, KU=0, shards=16, cfg="default@3"),
@@ -51,10 +55,10 @@ TIERS = {
 }
 
 
-def gen_cfg(K, KV, nshards, shard, roots="all", emit=True, KU=0, names=(), frommax=False):
-    return ("CONSTANTS K = %d NShards = %d Shard = %d Emit = %s RootSel = \"%s\" KV = %d KU = %d RootNames = {%s} FromMax = %s\n"
+def gen_cfg(K, KV, nshards, shard, roots="all", emit=True, KU=0, names=(), frommax=False, KL=0):
+    return ("CONSTANTS K = %d NShards = %d Shard = %d Emit = %s RootSel = \"%s\" KV = %d KU = %d RootNames = {%s} FromMax = %s KL = %d\n"
             "INIT Init\nNEXT Next\nVIEW View\n%s\nCHECK_DEADLOCK FALSE\n"
-            % (K, nshards, shard, "TRUE" if emit else "FALSE", roots, KV, KU, ", ".join('"%s"' % n for n in names), "TRUE" if frommax else "FALSE",
+            % (K, nshards, shard, "TRUE" if emit else "FALSE", roots, KV, KU, ", ".join('"%s"' % n for n in names), "TRUE" if frommax else "FALSE", KL,
                "\n".join("INVARIANT " + i for i in GEN_INVARIANTS)))
 
 
@@ -77,6 +81,7 @@ def one_shard(args):
     sim = args[10] if len(args) > 10 else None
     conv_cfg = args[11] if len(args) > 11 else "default"
     frommax = args[12] if len(args) > 12 else False
+    KL = args[13] if len(args) > 13 else 0
     t0 = time.time()
     states = os.path.join(work, "states-%d.txt" % shard)
     trace = os.path.join(work, "trace-%d.json" % shard)
@@ -86,7 +91,7 @@ def one_shard(args):
         # random walks of the value graph (TLC -simulate): long refinement chains beyond the BFS depth;
         # TLC evaluates the invariants (and so prints) every successor of every visited state
         extra = ("-simulate", "num=%d" % sim["num"], "-depth", str(sim["depth"]), "-seed", str(common.seed() * 1000 + shard + 1))
-    rc, _ = common.run_tlc("Codec", gen_cfg(K, KV, nshards, shard, roots, KU=KU, names=names, frommax=frommax), env=env, out_path=states, heap="2g", extra=extra)
+    rc, _ = common.run_tlc("Codec", gen_cfg(K, KV, nshards, shard, roots, KU=KU, names=names, frommax=frommax, KL=KL), env=env, out_path=states, heap="2g", extra=extra)
     head = open(states, encoding="utf-8", errors="replace").read()
     gen_text = "\n".join(l for l in head.splitlines() if not l.startswith('"@S'))
     if sim:
@@ -105,8 +110,10 @@ def one_shard(args):
     denv["VERIF_CONV_CFG"] = parts[0]
     if len(parts) > 1 and parts[1]:
         denv["PYTHONHASHSEED"] = parts[1]
-    if len(parts) > 2 and parts[2] == "O":
+    if len(parts) > 2 and "O" in parts[2]:
         denv["PYTHONOPTIMIZE"] = "1"                                # python -O: assert statements and __debug__ blocks are gone
+    if len(parts) > 2 and "W" in parts[2]:
+        denv["PYTHONWARNINGS"] = "error"                            # python -W error: every warning is an exception
     p = subprocess.run([common.PY, "-m", "harness.codec_driver", states, trace, model], cwd=common.VERIF,
                        env=denv, stdout=subprocess.PIPE, stderr=subprocess.PIPE)
     if p.returncode != 0:
@@ -157,6 +164,17 @@ def alias_table(model, path):
                 cands.append(c)
         if cands:
             out[name] = cands
+    # custom values of open string enumerations that differ from a declared value only in letter case
+    for e in json.load(open(model, encoding="utf-8"))["enumerations"]:
+        if e["type"]["name"] == "string":
+            declared = [v["value"] for v in e["values"]]
+            near = []
+            for v in declared[:2]:
+                for c in (v.upper(), v.capitalize(), v.swapcase()):
+                    if c not in declared and c not in near:
+                        near.append(c)
+            if near:
+                out["@enum:" + e["name"]] = near[:2]
     json.dump(out, open(path, "w"))
     return path
 
@@ -188,7 +206,7 @@ def run(tier, model=None, pkg_path=None, use_cache=True, passes=None):
         for pi, ps in enumerate(passes):
             d = os.path.join(work, "p%d" % pi)
             os.makedirs(d)
-            jobs += [(ps["K"], ps["KV"], ps["shards"], s, ps["roots"], model, pkg_path, d, ps.get("KU", 0), tuple(ps.get("names", ())), ps.get("simulate"), ps.get("cfg", "default"), ps.get("frommax", False)) for s in range(ps["shards"])]
+            jobs += [(ps["K"], ps["KV"], ps["shards"], s, ps["roots"], model, pkg_path, d, ps.get("KU", 0), tuple(ps.get("names", ())), ps.get("simulate"), ps.get("cfg", "default"), ps.get("frommax", False), ps.get("KL", 0)) for s in range(ps["shards"])]
         with cf.ThreadPoolExecutor(max_workers=common.NCPU) as ex:
             parts = list(ex.map(one_shard, jobs))
     finally:
